@@ -267,6 +267,12 @@ def check_merge(r, ctx):
         qs = [["vertex", k, 0.0, 0.0] for k in range(len(mll["center"]))] + [["interior", k, 0.37, 0.0]
                                                                                for k in range(len(mll["center"]) - 1)]
         validate_arclength(merged, mll, qs, ctx, tag="merged-")
+    if not joined:
+        # parts that do not touch: all vertices are kept, and the merged lanelet is again the lanelet of its own lines
+        mll = {name: a[name] + b[name] for name in ("left", "right", "center")}
+        qs = [["vertex", k, 0.0, 0.0] for k in range(len(mll["center"]))] + [["interior", k, 0.37, 0.0]
+                                                                               for k in range(len(mll["center"]) - 1)]
+        validate_arclength(merged, mll, qs, ctx, tag="merged-gap-")
     ctx.label(r["mode"])
     ctx.label("swapped-args" if r["swap"] else "pred-first")
     ctx.nontrivial()
